@@ -2,15 +2,21 @@
      kappadata/copying/folder.py        (copy_folder_from_global_to_local)
      kappadata/copying/image_folder.py  (copy_imagefolder_from_global_to_local, the twin)
      kappadata/copying/copying_utils.py (create_folder_with_file, delete_folder_content,
-                                         folder_contains_mostly_zips, run_unzip_jobs)
+                                         folder_contains_mostly_zips, run_unzip_jobs, unzip)
    as they are with /verif/fixes/C20_start_marker_atomic.patch and
    /verif/fixes/C20_wipe_keeps_start_marker.patch applied.  No proofs here.
 
    One call = a `plan`: the exact sequence of primitive file-system operations
    it issues from the state it finds.  A process that is killed stops after a
-   prefix of that sequence; an OSError raised by an operation stops it too.
+   prefix of that sequence -- or inside the next operation when that is a write
+   (crash_state_t: the first n bytes are out); an OSError raised by an operation stops it too.
    The same `plan` with the flags (fx_atomic, fx_wipe) = (false, false) is the
    code BEFORE the two repairs (kept for the refutation witnesses).
+
+   Parallel extraction (num_workers >= 2): run_unzip_jobs hands one task per zip to joblib; the tasks run
+   concurrently in worker processes.  `unzip_jobs` is the partition of the list of zips into tasks, and the order in
+   which the members of the different tasks take effect is chosen by an oracle (`sched`, see `interleave`): ANY
+   interleaving of the tasks that keeps the order inside a task.
 
    File system: association list  path -> Dir | File bytes ; only `lookup`
    matters (first binding wins, `del` removes every binding of a key). *)
@@ -145,6 +151,26 @@ Fixpoint run_upto (ops : list op) (s : fs) : fs * list ev :=
 (* killed after k operations *)
 Definition crash_state (ops : list op) (k : nat) (s : fs) : fs := fst (run_upto (firstn k ops) s).
 
+(* a process that is killed inside write(2) / sendfile(2) may have got only the first n bytes out *)
+Definition tear (n : nat) (o : op) : option op :=
+  match o with Write p c => Some (Write p (firstn n c)) | _ => None end.
+
+(* killed after k operations -- and, when t = Some n and the next operation is a write, in the middle of that write
+   after n bytes (t = None: between two operations) *)
+Fixpoint crash_state_t (ops : list op) (k : nat) (t : option nat) (s : fs) : fs :=
+  match ops, k with
+  | [], _ => s
+  | o :: _, O =>
+      match t with
+      | Some n => match tear n o with
+                  | Some o' => match apply o' s with Some (s1, _) => s1 | None => s end
+                  | None => s
+                  end
+      | None => s
+      end
+  | o :: r, S k' => match apply o s with None => s | Some (s1, _) => crash_state_t r k' t s1 end
+  end.
+
 (* ---------------------------------------------------------------------- *)
 (* the source (global) side                                                *)
 (* ---------------------------------------------------------------------- *)
@@ -160,6 +186,7 @@ Record config := {
   c_dir : option (list (name * tree));      (* src_path is a directory: its listing (os.listdir / os.scandir order) *)
   c_zips : list (name * list member);       (* members (namelist order) of the *.zip files directly inside it *)
   c_zip : option (list member);             (* src_path.with_suffix(".zip") exists: its members *)
+  c_workers : nat;                          (* num_workers *)
 }.
 
 Definition sname : name := "autocopy_start.txt"%string.
@@ -239,6 +266,46 @@ Definition all_members (c : config) (items : list (name * tree)) : list member :
                        (assoc_zip (fst nt) (c_zips c))
               else []) items.
 
+(* ---- the jobs of a folder of zips (unzip_batched_zips / unzip_imagefolder_classwise + run_unzip_jobs) ---- *)
+(* jobargs: the items of the listing that end in ".zip", in listing order *)
+Definition zip_items (items : list (name * tree)) : list name := filter is_zip_name (map fst items).
+
+(* run_unzip_jobs: num_workers <= 1 : one loop over all jobargs in the calling process (one "job");
+   otherwise jobs = [joblib.delayed(unzip)(src, dst) for src, dst in jobargs] : one task per zip *)
+Definition unzip_jobs {A : Type} (workers : nat) (zs : list A) : list (list A) :=
+  if workers <=? 1 then [zs] else map (fun z => [z]) zs.
+
+(* unzip(src, dst): the members of one archive in namelist order, extracted below dst (folder.py) or
+   dst/<stem> (image_folder.py) *)
+Definition zip_members (c : config) (n : name) : list member :=
+  map (prefix_member (match c_variant c with VFolder => [] | VImage => [stem n] end)) (assoc_zip n (c_zips c)).
+Definition job_members (c : config) (job : list name) : list member := flat_map (zip_members c) job.
+
+(* the next member of job number j, if that job has one left *)
+Fixpoint take_job {A : Type} (j : nat) (jobs : list (list A)) : option (A * list (list A)) :=
+  match jobs, j with
+  | [], _ => None
+  | q :: rest, O => match q with [] => None | m :: q' => Some (m, q' :: rest) end
+  | q :: rest, S j' => match take_job j' rest with None => None | Some (m, rest') => Some (m, q :: rest') end
+  end.
+
+(* the order in which the members of concurrently running jobs are extracted: sched = which job makes the next
+   step (the oracle; a job that has nothing left is skipped); pool(jobs) returns only when every job has run to
+   its end, so whatever the oracle has not scheduled is run at the end *)
+Fixpoint interleave {A : Type} (sched : list nat) (jobs : list (list A)) : list A :=
+  match sched with
+  | [] => List.concat jobs
+  | j :: sched' =>
+      match take_job j jobs with
+      | Some (m, jobs') => m :: interleave sched' jobs'
+      | None => interleave sched' jobs
+      end
+  end.
+
+Definition scheduled_members (c : config) (sched : list nat) (items : list (name * tree)) : list member :=
+  interleave sched (map (job_members c) (unzip_jobs (c_workers c) (zip_items items))).
+
+(* the walk over the source in its canonical order (sequential extraction) ... *)
 Definition src_entries (c : config) : list (path * entry) :=
   match c_dir c with
   | Some items =>
@@ -259,7 +326,24 @@ Definition ops_of_entry (base : path) (pe : path * entry) : list op :=
   | File c => [Create (base ++ fst pe); Write (base ++ fst pe) c]
   end.
 
-Definition copy_ops (c : config) : list op := flat_map (ops_of_entry (dst c)) (src_entries c).
+(* ... and in the order of one particular call (differs for a folder of zips extracted by several workers) *)
+Definition copy_entries (c : config) (sched : list nat) : list (path * entry) :=
+  match c_dir c with
+  | Some items =>
+      if mostly_zips items
+      then ([], Dir) :: flat_map member_entries (scheduled_members c sched items)
+      else src_entries c
+  | None => src_entries c
+  end.
+
+Definition copy_ops (c : config) (sched : list nat) : list op :=
+  flat_map (ops_of_entry (dst c)) (copy_entries c sched).
+
+(* the part of the copy phase that runs in joblib's worker processes *)
+Definition parallel (c : config) : bool :=
+  (1 <? c_workers c) && match format_of c with Zips => true | _ => false end.
+Definition worker_ops (c : config) (sched : list nat) : list op :=
+  if parallel c then tl (copy_ops c sched) else [].
 
 (* ---------------------------------------------------------------------- *)
 (* one call                                                                *)
@@ -293,10 +377,10 @@ Definition wipe_ops (fx_wipe : bool) (c : config) (order : list path) : list op 
   else (* shutil.rmtree(dst_path); dst_path.mkdir() *)
        map Remove order ++ [Rmdir (dst c); Mkdir (dst c)].
 
-Definition common_ops (c : config) : list op :=
-  [Create (smark c); Write (smark c) start_text] ++ copy_ops c ++ [Create (emark c); Write (emark c) end_text].
+Definition common_ops (c : config) (sched : list nat) : list op :=
+  [Create (smark c); Write (smark c) start_text] ++ copy_ops c sched ++ [Create (emark c); Write (emark c) end_text].
 
-Definition plan_gen (fx_atomic fx_wipe : bool) (c : config) (order : list path) (s : fs) : outcome :=
+Definition plan_gen (fx_atomic fx_wipe : bool) (c : config) (order : list path) (sched : list nat) (s : fs) : outcome :=
   if negb (src_exists c) then ORaise else
   match lookup s (dst c) with
   | Some _ =>
@@ -304,33 +388,35 @@ Definition plan_gen (fx_atomic fx_wipe : bool) (c : config) (order : list path) 
       | Some _ =>
           match lookup s (emark c) with
           | Some _ => OSkip nothing_done                                     (* already automatically copied *)
-          | None => ORun (wipe_ops fx_wipe c order ++ common_ops c)
+          | None => ORun (wipe_ops fx_wipe c order ++ common_ops c sched)
                          {| was_copied := true; was_deleted := true; source_format := Some (format_of c) |}
           end
       | None => OSkip nothing_done                                           (* manually copied dataset *)
       end
-  | None => ORun (create_ops fx_atomic c ++ common_ops c)
+  | None => ORun (create_ops fx_atomic c ++ common_ops c sched)
                  {| was_copied := true; was_deleted := false; source_format := Some (format_of c) |}
   end.
 
 (* ---------------------------------------------------------------------- *)
 (* histories                                                               *)
 (* ---------------------------------------------------------------------- *)
-Record attempt := { a_order : list path; a_kill : nat }.     (* scan order seen by the call; killed after a_kill operations *)
+(* scan order seen by the call; schedule of its workers; killed after a_kill operations (the workers die with it),
+   a_torn = Some n: inside the next operation, a write, after n bytes *)
+Record attempt := { a_order : list path; a_sched : list nat; a_kill : nat; a_torn : option nat }.
 
 Section WithFixes.
   Variables fx_atomic fx_wipe : bool.
 
   (* an invocation that does not return: killed after a_kill operations, or stopped by an OSError before *)
   Definition invoke_crashed (c : config) (s : fs) (a : attempt) : fs :=
-    match plan_gen fx_atomic fx_wipe c (a_order a) s with
-    | ORun ops _ => crash_state ops (a_kill a) s
+    match plan_gen fx_atomic fx_wipe c (a_order a) (a_sched a) s with
+    | ORun ops _ => crash_state_t ops (a_kill a) (a_torn a) s
     | _ => s
     end.
 
   (* an invocation that returns normally: final state, result, the system calls it made *)
-  Definition invoke (c : config) (order : list path) (s : fs) : option (fs * result * list ev) :=
-    match plan_gen fx_atomic fx_wipe c order s with
+  Definition invoke (c : config) (order : list path) (sched : list nat) (s : fs) : option (fs * result * list ev) :=
+    match plan_gen fx_atomic fx_wipe c order sched s with
     | ORaise => None
     | OSkip r => Some (s, r, [])
     | ORun ops r => match run ops s with Some (s', evs) => Some (s', r, evs) | None => None end
@@ -339,8 +425,8 @@ Section WithFixes.
   Definition after_crashes (c : config) (h : list attempt) (s0 : fs) : fs := fold_left (invoke_crashed c) h s0.
 
   (* any number of interrupted invocations followed by one that returns *)
-  Definition history_run (c : config) (h : list attempt) (order : list path) (s0 : fs) :=
-    invoke c order (after_crashes c h s0).
+  Definition history_run (c : config) (h : list attempt) (order : list path) (sched : list nat) (s0 : fs) :=
+    invoke c order sched (after_crashes c h s0).
 End WithFixes.
 
 (* the code as it is now *)
